@@ -10,11 +10,31 @@ typedef __int128 s128;
 #define GP 0xFFFFFFFF00000001UL
 #define GPN 0xFFFFFFFFUL /* 2^64 - p */
 
+#ifdef VF_UF_ADDSUB
+/* structural units: canon / MUL / INV are macros, so that syntactically equal spec sub-terms are ONE expression for CBMC
+ * (one circuit, one uninterpreted-function application) instead of one copy per textual occurrence */
+#define canon(x) ((u64)(x) >= GP ? (u64)(x) - GP : (u64)(x))
+#else
 static inline u64 canon(u64 x) { return x >= GP ? x - GP : x; }
+#endif
 /* x,y canonical */
+#ifdef VF_UF_ADDSUB
+/* Layer-2 units whose obligations are structural (the code applies the field operations in the order the spec DAG does)
+ * do not unfold the definitions of addmod / submod: they are uninterpreted functions of the canonical operands, and every
+ * obligation becomes a congruence-closure fact.  Sound: what holds for every interpretation holds for the defined one.
+ * The callee contracts of add/sub are assumed in the same form and carry the commutativity instance ADDC. */
+u64 __CPROVER_uninterpreted_addmod(u64, u64);
+u64 __CPROVER_uninterpreted_submod(u64, u64);
+#define addmod(x, y) __CPROVER_uninterpreted_addmod(x, y)
+#define submod(x, y) __CPROVER_uninterpreted_submod(x, y)
+#define negmod(x) __CPROVER_uninterpreted_submod((u64)0, x)
+#define ADDC(x, y) (addmod(x, y) == addmod(y, x))
+#else
 static inline u64 addmod(u64 x, u64 y) { u128 s = (u128)x + (u128)y; return (u64)(s >= GP ? s - GP : s); }
 static inline u64 submod(u64 x, u64 y) { return x >= y ? x - y : (u64)((u128)x + GP - y); }
 static inline u64 negmod(u64 x) { return x == 0 ? 0 : GP - x; }
+#define ADDC(x, y) 1
+#endif
 
 /* field multiplication of canonical values: an uninterpreted function of the ORDERED pair of canonical operands.
  * Commutativity is not built into the term (min/max muxes made every obligation 3-4x slower); it is supplied as an
@@ -22,8 +42,14 @@ static inline u64 negmod(u64 x) { return x == 0 ? 0 : GP - x; }
  * exactly at the applications the code makes - true of the real product, so the abstraction stays sound, and a kernel that
  * swaps the operands of a product still verifies. */
 u64 __CPROVER_uninterpreted_mulmod(u64, u64);
+#ifdef VF_UF_ADDSUB
+#define MUL(x, y) __CPROVER_uninterpreted_mulmod(canon(x), canon(y))
+#define MULK(x, y) __CPROVER_uninterpreted_mulmod(x, y)   /* operands already canonical spec terms */
+#else
+#define MULK(x, y) MUL(x, y)
 static inline u64 MUL(u64 x, u64 y) /* no call to another spec function inside (dfcc restriction) */
 { u64 a = x >= GP ? x - GP : x, b = y >= GP ? y - GP : y; return __CPROVER_uninterpreted_mulmod(a, b); }
+#endif
 #define MULC(x, y) (MUL(x, y) == MUL(y, x))
 
 /* reduction target of a 128-bit value hi:lo :  T = lo + hi_lo*(2^32-1) - hi_hi   (signed 128-bit, shifts only) */
